@@ -6,21 +6,31 @@ from props import c03
 
 RULE = ("curated balanced reactions shipped with the repository (quick: 300 sampled; thorough: all), their reversals, doublings "
         "(every molecule twice) and unions of two reactions, hand-written ionic / heavy-element / isotope cases, atom-mapped and "
-        "unmapped spellings; plus, for the converse, all rows of the corpus and generated runs.  Independent RDKit-only balance "
+        "unmapped spellings; mixed batches (balanced rows shuffled among rows the rule-based stage rewrites and unparsable rows that are filtered out; rows matched to inputs through input_reaction); plus, for the converse, all rows of the corpus and generated runs.  Independent RDKit-only balance "
         "oracle decides what must be input-balanced.  Non-trivial: a balanced input with >= 3 molecules or a charge or a variant "
         "(reversed/doubled/union); distinct = distinct input reaction.")
 ASSUMPTIONS = c03.ASSUMPTIONS
 TRUSTED = ["RDKit for the independent composition oracle and for clearing atom maps in the expected input_reaction"]
 HAND = ["[Na+].[Cl-]>>[Na+].[Cl-]", "[U]>>[U]", "F[U](F)(F)(F)(F)F>>F[U](F)(F)(F)(F)F", "[2H]O[2H]>>O", "[13CH4]>>C", "C[N+](C)(C)[O-]>>C[N+](C)(C)[O-]",
         "[NH3+]CC([O-])=O>>NCC(O)=O", "[Th]>>[Th]", "[Pu].[Pu]>>[Pu].[Pu]", "CC(=O)O.[OH-]>>CC(=O)[O-].O", "[H][H].C=C>>CC",
-        "[Fe+2].[Fe+3]>>[Fe+3].[Fe+2]", "c1ccccc1>>C1=CC=CC=C1", "[CH3:1][OH:2]>>[CH3:1][OH:2]", "[Og]>>[Og]", "*>>*", "[U]>>[Th]"]
+        "[Fe+2].[Fe+3]>>[Fe+3].[Fe+2]", "c1ccccc1>>C1=CC=CC=C1", "[CH3:1][OH:2]>>[CH3:1][OH:2]", "[Og]>>[Og]", "*>>*", "[U]>>[Th]",
+        # equal element counts, different net charge (negative, positive, on either side): must NOT be input-balanced
+        "[Cl-].[Cl-]>>ClCl", "ClCl>>[Cl-].[Cl-]", "[O-]C(=O)C([O-])=O>>O=C=O.O=C=O", "O=C=O.O=C=O>>[O-]C(=O)C([O-])=O", "[Fe+3]>>[Fe+2]", "[Fe+2]>>[Fe+3]",
+        "[O-]c1ccc([O-])cc1>>O=C1C=CC(=O)C=C1", "[Cu+]>>[Cu]", "[Na]>>[Na+]", "[S-2]>>[S]"]
 
 
-def oracle(ctx, b, expect_variant=False):
-    if len(b["rows"]) != len(b["inputs"]):
+def oracle(ctx, b, expect_variant=False, by_input=False):
+    if by_input:
+        # a batch some of whose rows were filtered out (C05): the remaining rows are matched to their inputs through
+        # input_reaction (the inputs of this stream are unmapped and pairwise different)
+        pairs = [(r["input_reaction"], r) for r in b["rows"] if b["inputs"].count(r["input_reaction"]) == 1]
+        ctx.count("inputs", "rows_matched_by_input_reaction", len(pairs))
+    elif len(b["rows"]) != len(b["inputs"]):
         ctx.count("inputs", "batches_with_lost_rows(C05)")
         return
-    for inp, r in zip(b["inputs"], b["rows"]):
+    else:
+        pairs = list(zip(b["inputs"], b["rows"]))
+    for inp, r in pairs:
         ctx.evaluations += 1
         if inp.count(">>") != 1:
             continue
@@ -28,7 +38,9 @@ def oracle(ctx, b, expect_variant=False):
             ctx.count("oracle", "out_of_domain_radical_placeholder")
             continue
         bal = pipe.balanced(inp)
-        case = {"inputs": [inp], "row": r}
+        case = {"inputs": list(b["inputs"]) if by_input else [inp], "row": r}
+        if by_input:
+            case["by_input"] = True
         if bal is True:
             ctx.count("oracle", "balanced_inputs")
             if inp.count(".") >= 2 or "+" in inp or "-]" in inp or expect_variant:
@@ -79,6 +91,21 @@ def run(ctx):
     ctx.count("inputs", "curated_and_variants", len(rx))
     for b in vs:
         oracle(ctx, b, expect_variant=True)
+    # mixed batches: balanced rows next to rows the rule-based stage rewrites and to unparsable rows that are filtered out, in
+    # random order (what a stage writes back by position or id must not land in a balanced row)
+    BAL = ["CC(=O)O.CCO>>CC(=O)OCC.O", "[Na+].[Cl-]>>[Na+].[Cl-]", "CC(=O)Cl.CN>>CC(=O)NC.Cl", "CC(=O)C.[H][H]>>CC(O)C", "CCO>>CCO",
+           "C=C.BrBr>>BrCCBr", "[Fe+2].[Fe+3]>>[Fe+3].[Fe+2]", "CC(=O)O.[OH-]>>CC(=O)[O-].O", "N#N.[H][H].[H][H].[H][H]>>N.N"]
+    RB = ["CC(=O)Cl.CN>>CC(=O)NC", "CC(=O)C>>CC(O)C", "CCBr.CN>>CCNC", "CC(=O)OC.O>>CC(=O)O"]
+    BAD = ["InvalidString>>C", "C(C>>CC", "CC>>X"]
+    mixed = []
+    for _ in range(24 if ctx.quick() else 400):
+        b = rng.sample(BAL, rng.randint(1, 4)) + rng.sample(RB, rng.randint(1, 3)) + rng.sample(BAD, rng.randint(0, 2))
+        rng.shuffle(b)
+        mixed.append(b)
+    ms, _ = pipe.cached("c04mixed_%s_%d" % (ctx.tier, ctx.seed), lambda: pipe.run_batches(mixed))
+    ctx.count("inputs", "mixed_batches", len(ms))
+    for b in ms:
+        oracle(ctx, b, by_input=True)
     bs = pipe.corpus_run(ctx)
     gs = c03.gen_run(ctx)
     for b in bs + gs:
@@ -93,6 +120,6 @@ def replay(ctx, rep):
     if isinstance(case, dict) and "inputs" in case:
         b = pipe.run_batch(case["inputs"])
         print(json.dumps(b["rows"], indent=1))
-        n = len(ctx.failures); oracle(ctx, b)
+        n = len(ctx.failures); oracle(ctx, b, by_input=bool(case.get("by_input")))
         return 1 if len(ctx.failures) > n else 0
     return 0
